@@ -1895,3 +1895,170 @@ func Harness_C13_stack() {
 func Harness_C05_triples() {
 	scenario([]int{opCompactAll, opOpenAdd, opOpenAdd}, 2, 0, 3, chkOpen|monList)
 }
+
+// ---------- C12: multi-record, multi-table transactions ----------
+
+type txnRec struct {
+	name string
+	kind int // 1 value ref, 2 deletion, 3 symbolic ref
+}
+
+// specApplyTable applies one table of a transaction to a live set: deleted
+// names leave, added names join; the table is legal when the result is
+// conflict-free (the menu holds only valid names).
+func specApplyTable(state []string, recs []txnRec) (post []string, ok bool) {
+	for _, n := range state {
+		gone := false
+		for _, r := range recs {
+			if r.name == n && r.kind == 2 {
+				gone = true
+			}
+		}
+		if !gone {
+			post = append(post, n)
+		}
+	}
+	for _, r := range recs {
+		if r.kind == 2 {
+			continue
+		}
+		found := false
+		for _, n := range post {
+			if n == r.name {
+				found = true
+			}
+		}
+		if !found {
+			post = append(post, r.name)
+		}
+	}
+	return post, !specNameConflicts(post)
+}
+
+// Harness_C12_txn: an Addition of two tables of several records each (value refs, symbolic refs, deletions; a later table may re-create what an earlier one deleted) is accepted exactly when every table leaves a conflict-free live set, and only then changes the committed state.
+// bounds: sequential, name checking on; live set = any conflict-free subset of {a, a/b, a/c} (all value refs or all symbolic refs), committed by one Add; then one Addition of two tables: the first of 1..2 records (value ref or deletion), the second of 1..2 records (value ref, symbolic ref or deletion), names from the same menu in name order; when the first table alone conflicts but both together would not, either verdict is tolerated (the property does not say whether a transaction is judged table by table) and only the committed state is checked
+// covers: accepted, rejected
+func Harness_C12_txn() {
+	cfg := stackCfg(0)
+	dir := VerifTempDir()
+	st := mustOpen(dir, cfg, "open")
+	if st == nil {
+		return
+	}
+	menu := []string{"a", "a/b", "a/c"}
+	var live []string
+	for _, n := range menu {
+		if VerifChoose(2) == 1 {
+			live = append(live, n)
+		}
+	}
+	if specNameConflicts(live) {
+		return
+	}
+	liveSym := VerifChoose(2) == 1
+	mk := func(r txnRec, ui uint64, salt byte) *RefRecord {
+		rec := &RefRecord{RefName: r.name, UpdateIndex: ui}
+		switch r.kind {
+		case 1:
+			rec.Value = hashWith(20, salt, 7)
+		case 3:
+			rec.Target = "refs/target"
+		}
+		return rec
+	}
+	if len(live) > 0 {
+		err := st.Add(func(w *Writer) error {
+			ui := st.NextUpdateIndex()
+			w.SetLimits(ui, ui)
+			for _, n := range live {
+				k := 1
+				if liveSym {
+					k = 3
+				}
+				if err := w.AddRef(mk(txnRec{n, k}, ui, 1)); err != nil {
+					return err
+				}
+			}
+			return nil
+		})
+		VerifAssert(err == nil, "first-add")
+		if err != nil {
+			return
+		}
+	}
+	pick := func(kinds int) []txnRec {
+		var recs []txnRec
+		for _, n := range menu {
+			if len(recs) < 2 {
+				if k := VerifChoose(kinds + 1); k > 0 {
+					recs = append(recs, txnRec{n, k})
+				}
+			}
+		}
+		return recs
+	}
+	t1, t2 := pick(2), pick(3)
+	if len(t1) == 0 || len(t2) == 0 {
+		return
+	}
+	s1, ok1 := specApplyTable(live, t1)
+	s2, ok2 := specApplyTable(s1, t2)
+	run := func() error {
+		tr, err := st.NewAddition()
+		if err != nil {
+			return err
+		}
+		defer tr.Close()
+		for i, recs := range [][]txnRec{t1, t2} {
+			recs := recs
+			ui := tr.nextUpdateIndex
+			salt := byte(i + 2)
+			if err := tr.Add(func(w *Writer) error {
+				w.SetLimits(ui, ui)
+				for _, r := range recs {
+					if err := w.AddRef(mk(r, ui, salt)); err != nil {
+						return err
+					}
+				}
+				return nil
+			}); err != nil {
+				return err
+			}
+		}
+		return tr.Commit()
+	}
+	err := run()
+	definite := true
+	want := ok1 && ok2
+	if !ok1 && ok2 {
+		definite = false // judged as a whole it would be legal, table by table it is not
+	}
+	if definite {
+		if want {
+			VerifAssert(err == nil, "legal-transaction-refused")
+			VerifCover("accepted")
+		} else {
+			VerifAssert(err != nil, "conflicting-transaction-accepted")
+			VerifCover("rejected")
+		}
+	}
+	fin := mustOpen(dir, cfg, "final-open")
+	if fin == nil {
+		return
+	}
+	got := snapshot(fin, "final").refs
+	var names []string
+	for n := range got {
+		names = append(names, n)
+	}
+	VerifAssert(!specNameConflicts(names), "live-refs-conflict")
+	expect := live
+	if err == nil {
+		expect = s2
+	}
+	VerifAssert(len(names) == len(expect), "committed-live-set-size")
+	for _, n := range expect {
+		_, ok := got[n]
+		VerifAssert(ok, "committed-live-set-member")
+	}
+}
